@@ -1,7 +1,7 @@
 (* C06 proofs, part 1: the opaque-token round trip and acceptance of the issued
    JWTs by the verifier models of C01/C02 (abstract signature oracle and hash). *)
 From OIDC Require Import Lib Base64 Base64_proofs Cipher Cipher_proofs
-     C02_Jws C01_Verifier C02_Verifiers C06_Token.
+     C02_Jws C01_Verifier C02_Verifiers C06_Token C06_spec.
 From Coq Require Import ZifyBool ZifyNat ZifyN.
 Ltac Zify.zify_post_hook ::= Z.div_mod_to_equations.
 
@@ -68,36 +68,76 @@ Section Accept.
   Variable verify : jwk -> sigentry -> string -> bool.
   Variable H : hkind -> string -> list nat.
 
-  (* the oracle accepts what key k signed (completeness of the signature scheme) *)
+  (* the oracle accepts what key k signed, under k's public key however it is
+     labelled in a key set (completeness of the signature scheme) *)
   Definition sign_complete (k : sigkey) : Prop :=
-    verify (mkJwk (sk_kid k) "sig" (sk_ty k) (sk_mat k))
-           (mkSig (sk_alg k) (sk_kid k) "H" (SigBy (sk_mat k) (sk_alg k) "H" "P")) "P" = true.
+    forall pk, k_mat pk = sk_mat k ->
+      verify pk (mkSig (sk_alg k) (sk_kid k) "H" (SigBy (sk_mat k) (sk_alg k) "H" "P")) "P" = true.
 
   Definition key_ok (k : sigkey) : bool :=
     negb (sk_kid k =s "") && alg_fits (sk_ty k) (sk_alg k).
 
-  Lemma check_signature_issued k extra algs :
-    sign_complete k -> key_ok k = true ->
+  (* FindMatchingKey returns the first usable key with exactly this kid *)
+  Definition exact_cand (kid alg : string) (x : jwk) : bool :=
+    candidate "sig" alg x && exact_kid kid x.
+
+  Lemma find_scan_exact kid alg x : forall keys valid,
+    filter (exact_cand kid alg) keys = [x] -> find_scan kid "sig" alg keys valid = FOk x.
+  Proof.
+    induction keys as [|y r IH]; intros valid Hf; [discriminate|].
+    cbn [filter] in Hf. unfold exact_cand in Hf at 1. cbn [find_scan].
+    destruct (candidate "sig" alg y); cbn [andb] in Hf.
+    - destruct (exact_kid kid y).
+      + (* y is the first exact candidate, hence x *) now inversion Hf.
+      + destruct (loose_kid kid y); now apply IH.
+    - now apply IH.
+  Qed.
+
+  (* key types are determined by the algorithm *)
+  Lemma alg_fits_kty t t' alg : alg_fits t alg = true -> alg_fits t' alg = kty_eqb t' t.
+  Proof.
+    unfold alg_fits.
+    destruct (prefix "RS" alg || prefix "PS" alg); [destruct t, t'; try discriminate; reflexivity|].
+    destruct (prefix "ES" alg); [destruct t, t'; try discriminate; reflexivity|].
+    destruct (alg =s "EdDSA"); [destruct t, t'; try discriminate; reflexivity|]. discriminate.
+  Qed.
+
+  Lemma published_once_find k keys :
+    key_ok k = true -> published_once k keys = true ->
+    exists pk, find_matching_key (sk_kid k) "sig" (sk_alg k) keys = FOk pk /\ k_mat pk = sk_mat k.
+  Proof.
+    intros Hk Hp. apply andb_true_iff in Hk as [Hkid Hfit]. apply negb_true_iff in Hkid.
+    unfold published_once in Hp.
+    assert (Hext : forall x, ((k_id x =s sk_kid k) && ((k_use x =s "sig") || (k_use x =s ""))
+                               && kty_eqb (k_ty x) (sk_ty k))
+                             = exact_cand (sk_kid k) (sk_alg k) x).
+    { intro x. unfold exact_cand, candidate, use_ok, exact_kid.
+      rewrite (alg_fits_kty _ (k_ty x) _ Hfit), Hkid. cbn [negb].
+      destruct (k_id x =s sk_kid k), (k_use x =s "sig"), (k_use x =s ""), (kty_eqb (k_ty x) (sk_ty k)); reflexivity. }
+    rewrite (filter_ext _ _ Hext) in Hp.
+    destruct (filter (exact_cand (sk_kid k) (sk_alg k)) keys) as [|x [|? ?]] eqn:Ef; try discriminate.
+    exists x. split; [|now apply N.eqb_eq]. unfold find_matching_key. now apply find_scan_exact.
+  Qed.
+
+  Lemma check_signature_issued k keys algs :
+    sign_complete k -> key_ok k = true -> published_once k keys = true ->
     string_in (sk_alg k) (effective_algs algs) = true ->
-    check_signature verify algs (KSOpenID (Some (served_keys k extra)))
+    check_signature verify algs (KSOpenID (Some (served_keys keys)))
                     (sym_token (sign_desc k)) "P" = Ok (sk_alg k).
   Proof.
-    intros Hs Hk Ha. apply andb_true_iff in Hk as [Hkid Hfit].
-    apply negb_true_iff in Hkid.
+    intros Hs Hk Hp Ha.
+    destruct (published_once_find k keys Hk Hp) as (pk & Hfind & Hmat).
     unfold check_signature, sym_token, sign_desc, jose_parse. cbn [j_alg j_kid j_mat se_alg].
-    rewrite Ha. cbn [keyset_verify openid_verify served_keys se_kid se_alg].
-    unfold find_matching_key, served_keys. cbn [find_scan].
-    unfold candidate, use_ok, exact_kid. cbn [k_use k_ty k_id].
-    rewrite Hfit, !eqb_refl_s, Hkid. cbn [orb andb negb verify_found].
-    unfold sign_complete in Hs. rewrite Hs. reflexivity.
+    rewrite Ha. unfold served_keys. cbn [keyset_verify openid_verify se_kid se_alg].
+    rewrite Hfind. cbn [verify_found]. rewrite (Hs pk Hmat). reflexivity.
   Qed.
 
   Lemma round_s_ge m x : (m * ns <= x)%Z -> (m * ns <= round_s x)%Z.
   Proof. unfold round_s, ns. intro Hx. lia. Qed.
 
   (* rp.VerifyIDToken accepts claims c signed by k *)
-  Lemma verify_id_accepts v k extra (c : claims) vnow :
-    sign_complete k -> key_ok k = true ->
+  Lemma verify_id_accepts v k keys (c : claims) vnow :
+    sign_complete k -> key_ok k = true -> published_once k keys = true ->
     string_in (sk_alg k) (effective_algs (v_algs v)) = true ->
     c_sub c <> "" -> c_iss c = v_issuer v ->
     string_in (v_client v) (c_aud c) = true ->
@@ -108,17 +148,17 @@ Section Accept.
     v_max_iat v = 0%Z -> v_max_age v = 0%Z ->
     (match v_nonce v with None => True | Some n => c_nonce c = n end) ->
     (match v_acr v with None => True | Some l => string_in (c_acr c) l = true end) ->
-    verify_id_token verify v (KSOpenID (Some (served_keys k extra)))
+    verify_id_token verify v (KSOpenID (Some (served_keys keys)))
                     (sym_token (sign_desc k)) (MidOk "P" c) vnow = Accept c (sk_alg k).
   Proof.
-    intros Hs Hk Ha Hsub Hiss Haud Hazp Hcl H0 Hexp Hiat0 Hiat Hmi Hma Hn Hacr.
+    intros Hs Hk Hp Ha Hsub Hiss Haud Hazp Hcl H0 Hexp Hiat0 Hiat Hmi Hma Hn Hacr.
     unfold verify_id_token.
     unfold chk_subject. apply eqb_neq_s in Hsub. rewrite Hsub. cbn [andthen].
     unfold chk_issuer. rewrite Hiss, eqb_refl_s. cbn [andthen].
     unfold chk_audience. rewrite Haud. cbn [andthen].
     unfold chk_azp. rewrite Hazp. apply eqb_neq_s in Hcl. rewrite Hcl, eqb_refl_s.
     rewrite andb_false_r. cbn [negb andb andthen].
-    rewrite (check_signature_issued k extra (v_algs v) Hs Hk Ha).
+    rewrite (check_signature_issued k keys (v_algs v) Hs Hk Hp Ha).
     unfold chk_expiration, instant.
     assert (Hexp0 : Z.eqb (c_exp c) 0 = false) by (apply Z.eqb_neq; unfold ns in *; lia).
     rewrite Hexp0. apply Z.ltb_lt in Hexp. rewrite Hexp. cbn [andthen].
@@ -140,12 +180,12 @@ Section Accept.
   Qed.
 
   (* rp.VerifyTokens: additionally at_hash, computed over exactly this access token *)
-  Lemma verify_tokens_accepts v k extra (c : claims) access vnow :
-    verify_id_token verify v (KSOpenID (Some (served_keys k extra)))
+  Lemma verify_tokens_accepts v k keys (c : claims) access vnow :
+    verify_id_token verify v (KSOpenID (Some (served_keys keys)))
                     (sym_token (sign_desc k)) (MidOk "P" c) vnow = Accept c (sk_alg k) ->
     c_at_hash c = (if access =s "" then "" else claim_hash H (sk_alg k) access) ->
     hash_of_alg (sk_alg k) <> None ->
-    verify_tokens verify H v (KSOpenID (Some (served_keys k extra)))
+    verify_tokens verify H v (KSOpenID (Some (served_keys keys)))
                   (sym_token (sign_desc k)) (MidOk "P" c) access vnow = Accept c (sk_alg k).
   Proof.
     intros Hv Hh Hk. unfold verify_tokens. rewrite Hv. unfold chk_at_hash. rewrite Hh.
@@ -156,17 +196,17 @@ Section Accept.
   Qed.
 
   (* op.VerifyAccessToken accepts a JWT access token signed by k *)
-  Lemma verify_access_accepts issuer algs k extra (c : claims) vnow :
-    sign_complete k -> key_ok k = true ->
+  Lemma verify_access_accepts issuer algs k keys (c : claims) vnow :
+    sign_complete k -> key_ok k = true -> published_once k keys = true ->
     string_in (sk_alg k) (effective_algs algs) = true ->
     c_iss c = issuer -> (0 <= vnow)%Z -> (vnow < c_exp c * ns)%Z ->
     verify_access_token verify (mkVerifier issuer "" 0 0 0 None None algs)
-                        (KSOpenID (Some (served_keys k extra)))
+                        (KSOpenID (Some (served_keys keys)))
                         (sym_token (sign_desc k)) (MidOk "P" c) vnow = Accept c (sk_alg k).
   Proof. clear H.
-    intros Hs Hk Ha Hiss H0 Hexp. unfold verify_access_token. cbn [v_issuer v_algs v_offset].
+    intros Hs Hk Hp Ha Hiss H0 Hexp. unfold verify_access_token. cbn [v_issuer v_algs v_offset].
     unfold chk_issuer. rewrite Hiss, eqb_refl_s. cbn [andthen].
-    rewrite (check_signature_issued k extra algs Hs Hk Ha).
+    rewrite (check_signature_issued k keys algs Hs Hk Hp Ha).
     unfold chk_expiration, instant.
     assert (Hexp0 : Z.eqb (c_exp c) 0 = false) by (apply Z.eqb_neq; unfold ns in Hexp |- *; lia).
     rewrite Hexp0, Z.add_0_r. apply Z.ltb_lt in Hexp. now rewrite Hexp.
@@ -175,5 +215,5 @@ End Accept.
 
 Lemma sym_sign_complete k : sign_complete sym_verify k.
 Proof.
-  unfold sign_complete, sym_verify. cbn. now rewrite N.eqb_refl, !eqb_refl_s.
+  unfold sign_complete, sym_verify. intros pk Hm. cbn. rewrite Hm. now rewrite N.eqb_refl, !eqb_refl_s.
 Qed.
